@@ -114,7 +114,9 @@ Section O14.
     | _, _ => true
     end.
 
-  (* a conflict ByKey() without key strategy cannot resolve *)
+  (* ByKey() without key strategy ends in DocumentSyncConflict: some key has differing values and the source
+     value is not a mapping (a mapping source meeting a non-mapping destination is a TypeError, or silently
+     nothing when the source mapping is empty) *)
   Fixpoint has_conflict (sv dv : json) {struct sv} : bool :=
     match sv, dv with
     | JObj s, JObj d =>
@@ -125,7 +127,7 @@ Section O14.
                match alookup k d with
                | None => false
                | Some y => if py_eq y x then false
-                           else if is_obj x && is_obj y then has_conflict x y else true
+                           else if is_obj x then (if is_obj y then has_conflict x y else false) else true
                end || go l'
            end) s
     | _, _ => false
